@@ -160,11 +160,13 @@ PROPS = {
 },
     "C18": {
         "streams": ["array", "mapcollide", "callbackfail"], "driver": {"array": "array", "mapcollide": "map"}, "level": "proof",
-        "trusted_base": LEAN_TB, "assumptions": ARRAY_ASSUME + [
-            "the model's operations return Except: a rejected request carries no new state; what ties this to the code is the per-operation comparison of the net storage effect ('EFF -' after every rejected request) and of the periodic full dumps",
-            "nested handles (ancestors untouched by a rejected child request) are covered by C10's stream, not by these theorems"],
+        "trusted_base": LEAN_TB + [
+            "harness/cmd/extract argCheckPrefix (go/ast walk of the request-level functions: statement kinds that may precede each refusal site; branch-sensitive, loops included once); the classification of the kinds is in the Lean statement (Props/C18Order.lean)"],
+        "assumptions": ARRAY_ASSUME + [
+            "in-place programs (AtreeModel/Reject.lean) transcribe the request paths in Go statement order up to the last statement that can refuse the request; the statements after it (split / merge / rebalance / store) are taken from the functional model as one step; agreement of the two models is proved (inplace_request_agrees, map_set/remove_inplace_agrees), agreement with the code is the per-operation correspondence ('EFF -' after every refused request, periodic full dumps) and the regenerated statement order (arg_checks_precede_effects)",
+            "reject_is_noop / history_with_rejections_same_state hold by construction of the wrapper Arr.request (they state the replayer's semantics); nested handles: the World model's operations return .error without a world, so 'ancestors untouched' is by construction there too (C10's stream exercises it); Array.RangeIterator / callback categories are covered by the order fact and the streams, not by an in-place program"],
         "rule": "array stream: out-of-range get/set/insert/remove at every state (profile 3); map collision stream: absent-key removals and collision-limit refusals (limits 0..3) at every state; callback stream: comparator failing at call 1..4, hash-input provider failing, ledger reads failing; distinct = distinct (request kind, error kind) pairs + programs",
-        "explanation": "Theorems: arg_error_category / model_error_categories (by decide over the table regenerated from errors.go), callback_failure_is_external (model of wrapErrorfAsExternalErrorIfNeeded), reject_is_noop, history_with_rejections_same_state. Oracle: errors.As category, no SlabStorage call during a rejected request, dump and Deltas() unchanged.",
+        "explanation": "Theorems: arg_error_category / model_error_categories (by decide over the table regenerated from errors.go), callback_failure_is_external; arg_checks_precede_effects (by decide over the regenerated statement order of ~50 request-level Go functions: nothing but reads, earlier checks and error exits precedes any refusal site; position checks are unconditional; every named refusal is present); reject_leaves_no_trace / map_set_reject_leaves_no_trace / map_remove_reject_leaves_no_trace (in-place programs whose state survives an error, all depths and digest levels, no invariant assumed) with s06_program_leaves_a_trace as the counter-model; inplace_request_agrees, map_set/remove_inplace_agrees (same result and state as the functional model); rejected_request_writes_nothing, history_with_rejections_commits_same_registers (+ maps): the in-place history with its refused requests leaves the same pending write set and ledger as the served requests alone and is the run of E2E.rep_history. reject_is_noop / history_with_rejections_same_state: by construction (kept, labelled). Oracle: errors.As category, no SlabStorage call during a rejected request, dump and Deltas() unchanged.",
     },
     "C20": {
         "streams": ["health"], "driver": {"health": "health"}, "level": "proof",
